@@ -7,12 +7,12 @@ import vlib
 # the finite domain: must equal the CONSTANTS of specs/MC_Fees*.cfg (and the sets in MC_Fees.tla)
 DOMAIN = {
     "quick": {"cfg": "MC_Fees", "amts": "0..40", "fs": "0,1,3,5,9,10,11,15", "gs": "2,12",
-              "rfs": "0,1,3,5,9,10,11,15", "discs": "-1,0,1,3,5,9,10,11,15",
-              "ofs": "0,1,5,10,11,15", "orfs": "0,4,10,15", "odiscs": "-1,0,5,10,15",
+              "rfs": "0,1,3,5,9,10,11,15", "discs": "-1,0,1,3,5,9,10,11,15,20,21,30",
+              "ofs": "0,1,5,10,11,15", "orfs": "0,4,10,15", "odiscs": "-1,0,5,10,15,21,30",
               "prices": "1/1,2/3,3/3,0/1", "lfs": "0,1,3,5,9,10,11,15", "lrfs": "0,1,3,5,9,10,11,15"},
     "thorough": {"cfg": "MC_Fees_thorough", "amts": "0..40", "fs": "0..15", "gs": "2,12",
-                 "rfs": "0..15", "discs": "-1..15",
-                 "ofs": "0,1,3,5,9,10,11,13,15", "orfs": "0,1,4,9,10,11,15", "odiscs": "-1,0,1,5,9,10,11,15",
+                 "rfs": "0..15", "discs": "-1..15,20,21,25,30,35",
+                 "ofs": "0,1,3,5,9,10,11,13,15", "orfs": "0,1,4,9,10,11,15", "odiscs": "-1,0,1,5,9,10,11,15,20,21,30",
                  "prices": "1/1,2/3,3/3,0/1", "lfs": "0..15", "lrfs": "0..15"},
 }
 KEY = ("op", "amt", "pmin", "pmax", "pf", "nf", "rf", "disc", "change", "lf", "lrf")
